@@ -178,6 +178,8 @@ def const_val(n):
         return 1 if n["val"] == "true" else 0
     if k == "DeclRefExpr" and "enumc" in n:
         return int(n["val"])
+    if k == "DeclRefExpr" and "cv" in n:
+        return int(n["cv"])
     if k == "UnaryOperator" and n.get("op") in ("-", "!", "+"):
         v = const_val(c[0])
         if v is None:
@@ -432,6 +434,17 @@ class Fn:
 
     def loc(self, n):
         return "%s:%d" % (self.file, n.get("l", self.line))
+
+    def locals(self):
+        """did -> VarDecl node; range-for variables map to {'range': <range expression>}"""
+        if getattr(self, "_locals", None) is None:
+            self._locals = {}
+            for n in self.walk():
+                if n.get("k") == "VarDecl" and "did" in n:
+                    self._locals.setdefault(n["did"], n)
+                if n.get("k") == "CXXForRangeStmt" and n.get("lv") is not None:
+                    self._locals[n["lv"]["did"]] = {"k": "VarDecl", "did": n["lv"]["did"], "name": n["lv"].get("name"), "range": n.get("range"), "t": n["lv"].get("t")}
+        return self._locals
 
     def params(self):
         return self.d.get("params", [])
